@@ -192,7 +192,7 @@ class Profile:
         elif k == 'dobj':
             if L.objs:
                 o = rnd.choice(sorted(L.objs)); L.objs.discard(o); add('dobj %d' % o)
-        elif k in ('cpobj', 'mvobj'):
+        elif k in ('cpobj', 'cpobjn', 'mvobj'):
             free = [o for o in range(1, NOBJ + 1) if o not in L.objs]
             if L.objs and free:
                 o = rnd.choice(sorted(L.objs)); o2 = rnd.choice(free); L.objs.add(o2); add('%s %d %d' % (k, o, o2))
@@ -214,7 +214,7 @@ class Profile:
         else:
             raise ValueError(k)
 
-SIMPLE = [1, 2, 3, 9, 10, 12, 13, 22, 23, 24, 30, 32, 33, 40, 42, 43, 50, 52, 53, 60, 61, 62, 63, 64, 65, 66, 67, 68, 120, 122, 123]
+SIMPLE = [1, 2, 3, 9, 10, 12, 13, 126, 127, 22, 23, 24, 30, 32, 33, 40, 42, 43, 50, 52, 53, 60, 61, 62, 63, 64, 65, 66, 67, 68, 120, 122, 123]
 SEQSH = [5, 6, 7, 8, 11, 25, 26, 27, 34, 44, 54, 56, 69, 121, 124, 125]
 
 PROFILES = {
@@ -236,7 +236,7 @@ PROFILES = {
                               dobj=2, unwatch=0.7, scope=1.5, mscope=1, endscope=2.5), nmock=2, nseq=3, args=(0, 1), terms=[(0, 0), (0, 0), (1, 0), (1, 1)],
                          prelude=('mock', 'seq', 'seq'), multi_mon=False, seglen=(10, 34),
                          bounds=((1, 1), (0, 1), (1, 2), (2, 2), (0, INF), (1, INF), (2, 3))),
-    'forbid': Profile('forbid', [12, 13, 14, 2, 9, 10, 1, 3, 33, 43, 53, 30, 40, 50, 23, 62, 63, 68, 65, 67, 64],
+    'forbid': Profile('forbid', [12, 13, 14, 2, 9, 10, 1, 3, 33, 43, 53, 30, 40, 50, 23, 62, 63, 68, 65, 67, 64, 126, 126, 127],
                       dict(mock=1, expect=8, call=6, call_live=14, release=4, dmock=0.7, scope=3, endscope=3), nmock=2,
                       bounds=((0, 0), (0, 0), (1, 1), (0, INF), (1, 2)), prelude=('mock',)),
     'clauses': Profile('clauses', [4, 8, 16, 21, 25, 31, 41, 51, 15, 55, 3, 10, 13, 90, 91, 92],
@@ -244,7 +244,7 @@ PROFILES = {
                        se_beh=(0, 0, 0, 0, 1, 2, 3, 3), prelude=('mock', 'seq', 'seq'),
                        bounds=((1, 1), (0, INF), (1, 3), (2, 2))),
     'deathwatch': Profile('deathwatch', [5, 2],
-                          dict(obj=6, watch=7, unwatch=4, dobj=6, cpobj=2, mvobj=2, asobj=2, masobj=2, seq=1, mock=0.3,
+                          dict(obj=6, watch=7, unwatch=4, dobj=6, cpobj=2, cpobjn=1.5, mvobj=2, asobj=2, masobj=2, seq=1, mock=0.3,
                                expect=1, call_live=1, mscope=3, endscope=3), nmock=1, nseq=2, multi_mon=True, seglen=(6, 24), prelude=('obj',)),
     'teardown_all': Profile('teardown_all', SIMPLE + SEQSH,
                             dict(mock=2, seq=2, expect=8, call=2, call_live=6, release=4, dmock=3, mmock=3, dseq=3, obj=2,
@@ -348,6 +348,8 @@ def gen_conc_segments(nseg, seed, nthreads=(2, 4), oplen=(3, 14), prefix='conc')
         T = min(TT, 3)                      # 3 owner threads x 2 slots = 6 slots, 3 objects, 3 monitors
         callers = TT - T                    # further threads own nothing: they call the shared mock and query the shared sequences
         lines = ['pre mock 0', 'pre seq 1', 'pre seq 2']
+        if rnd.random() < 0.3:
+            lines.append('pre tracer 1 1')       # installed before the threads start: calls on every thread are traced to it
         for t in range(T):
             if t + 1 < NM_ID:
                 lines.append('pre mock %d' % (t + 1))
@@ -696,7 +698,7 @@ def exhaustive_monitors():
         for seqd in (0, 1):
             items = ['u%d' % k for k in range(1, n + 1)] + ['d']
             for perm in itertools.permutations(items):
-                for pre in ('', 'cpobj 1 2', 'mvobj 1 2', 'asobj', 'masobj'):
+                for pre in ('', 'cpobj 1 2', 'cpobjn 1 2', 'mvobj 1 2', 'asobj', 'masobj'):
                     ops = ['obj 1', 'seq 1']
                     if pre in ('asobj', 'masobj'):
                         ops.append('obj 2')
